@@ -260,6 +260,8 @@ def behave(node, kwargs, attempt, run):
 
 
 def default_value(node, kwargs):
+    if (node.get('plan') or {}).get('default_none'):
+        return None         # None is a legitimate default value
     return ('D', node['id'], tuple((k, kwargs[k]) for k in sorted(kwargs)))
 
 
@@ -417,6 +419,9 @@ async def abody(inst, nid, kwargs):
             await asyncio.sleep(_r.random() * REAL['jitter'])
         else:
             await gate(('body', run, nid))
+        work = (node.get('plan') or {}).get('work')
+        if work and not s.real:
+            await asyncio.sleep(work)       # the attempt takes (virtual) time before it returns / raises
     except asyncio.CancelledError:
         s.ev('body_cancelled', run, nid, attempt=attempt)
         raise
